@@ -3,9 +3,11 @@ package clifs
 import (
 	"bytes"
 	"fmt"
+	"io/fs"
 	"os"
 	"path/filepath"
 	"sort"
+	"strconv"
 	"strings"
 
 	"verif/vp/core"
@@ -223,6 +225,27 @@ func (h *H) evalFault(c *core.Case, s *Scenario, dir, world string, r *run) {
 	if outAbs == "" {
 		priorExists = false
 	}
+	if s.DirMode != "" && outAbs != "" {
+		// the existing directory nearest to -out has a mode of its own (metadata is part of "left exactly as they were")
+		if m, err := strconv.ParseUint(s.DirMode, 8, 32); err == nil {
+			d := filepath.Dir(outAbs)
+			for !isDir(d) && len(d) > len(root) {
+				d = filepath.Dir(d)
+			}
+			if isDir(d) && strings.HasPrefix(d, root) {
+				mode := fs.FileMode(m & 0o777)
+				if m&0o2000 != 0 {
+					mode |= fs.ModeSetgid
+				}
+				if m&0o1000 != 0 {
+					mode |= fs.ModeSticky
+				}
+				if os.Chmod(d, mode) == nil {
+					r.note("dir_mode_set")
+				}
+			}
+		}
+	}
 	before := Snapshot(dir)
 	var res *core.Result
 	if s.Fault == "stdoutfull" {
@@ -407,4 +430,9 @@ func (h *H) libraryWriterCheck(rc *core.Case, world string, pristine *core.Resul
 			r.note("library_failing_writer")
 		}
 	}
+}
+
+func isDir(p string) bool {
+	st, err := os.Stat(p)
+	return err == nil && st.IsDir()
 }
